@@ -20,6 +20,10 @@ RULE = (
     "distinct = program hash (+ evil mode); non-trivial = at least 2 flushes."
     " At every task step and before every flush all pending batches are looked at (state queries, str) and must stay as they were. Every third run is made with the debug option KEEP_DEPENDENCIES on (tasks keep their dependency lists): the same oracles apply."
 )
+RULE += (
+    " Item mode hit: the request is answered when it is created (a local-cache hit), still travels in its batch "
+    "and counts for the batch's priority; no flush may answer it again."
+)
 ASSUMPTIONS = ["the pending-batch set is derived from what tasks yielded, i.e. exact for yield-only programs"]
 UNIT_TIMEOUT = {"quick": 150, "thorough": 2400}
 
